@@ -666,19 +666,15 @@ Proof.
   - destruct (kvs s !! q_key q); intros Hop; [discriminate|injection Hop as <- _; reflexivity].
 Qed.
 
-Theorem end_of_session_txn_op idx op s s' r :
-  LockInv s -> txn_op idx op s = Ok (s', r) -> EndClause s idx s'.
+Definition is_kv_op (op : txnop) : bool := match op with TKV _ _ => true | _ => false end.
+
+(* the operations that can end sessions leave every key untouched or ended with its session *)
+Lemma txn_op_EndP idx op s s' r :
+  LockInv s -> is_kv_op op = false -> txn_op idx op s = Ok (s', r) -> EndP s idx s'.
 Proof.
-  intros Hs Hop.
-  assert (Hinv' : LockInv s').
-  { pose proof (txn_op_LockInv idx op s Hs) as Hx. rewrite Hop in Hx. exact Hx. }
-  destruct op as [v q|v nd id addr cidx|v nd svc name port cidx|v c|sid].
-  - (* KV verbs do not touch the sessions table *)
-    intros sid ss Hss Hgone. exfalso.
-    assert (Hsame : sessions s' = sessions s) by (eapply txn_kv_sessions; exact Hop).
-    rewrite Hsame in Hgone. congruence.
-  - apply (EndP_clause s idx s' Hs Hinv').
-    cbn [txn_op] in Hop. unfold txn_node in Hop.
+  intros Hs Hnk Hop.
+  destruct op as [v q|v nd id addr cidx|v nd svc name port cidx|v c|sid]; [discriminate| | | |].
+  - cbn [txn_op] in Hop. unfold txn_node in Hop.
     assert (HP : EndP s idx s) by (apply EndP_refl; apply Hs).
     assert (HL := EndP_lock_only s idx).
     assert (HD := fun s1 sid ss => EndP_drop s idx s1 sid ss).
@@ -696,8 +692,7 @@ Proof.
     + destruct (nodes s !! nd) as [x|]; [|discriminate]. destruct (bool_decide (n_modify x = cidx)); [|discriminate].
       pose proof (at_delete_node (EndP s idx) idx HL HD nd s HP) as Hx.
       destruct (delete_node idx nd s) as [s1|e p]; cbn in Hop; [|discriminate]. injection Hop as <- _; exact Hx.
-  - apply (EndP_clause s idx s' Hs Hinv').
-    cbn [txn_op] in Hop. unfold txn_service in Hop.
+  - cbn [txn_op] in Hop. unfold txn_service in Hop.
     assert (HP : EndP s idx s) by (apply EndP_refl; apply Hs).
     assert (HL := EndP_lock_only s idx).
     assert (HD := fun s1 sid ss => EndP_drop s idx s1 sid ss).
@@ -716,8 +711,7 @@ Proof.
       destruct (bool_decide (sv_modify x = cidx)); [|discriminate].
       pose proof (at_delete_service (EndP s idx) idx HL HD nd svc s HP) as Hx.
       destruct (delete_service idx nd svc s) as [s1|e p]; cbn in Hop; [|discriminate]. injection Hop as <- _; exact Hx.
-  - apply (EndP_clause s idx s' Hs Hinv').
-    cbn [txn_op] in Hop. unfold txn_check in Hop.
+  - cbn [txn_op] in Hop. unfold txn_check in Hop.
     assert (HP : EndP s idx s) by (apply EndP_refl; apply Hs).
     assert (HL := EndP_lock_only s idx).
     assert (HD := fun s1 sid ss => EndP_drop s idx s1 sid ss).
@@ -740,11 +734,25 @@ Proof.
       pose proof (at_delete_check (EndP s idx) idx HL HD (cr_node c) (cr_id c) s HP) as Hx.
       destruct (delete_check idx (cr_node c) (cr_id c) s) as [s1|e p]; cbn in Hop; [|discriminate].
       injection Hop as <- _; exact Hx.
-  - apply (EndP_clause s idx s' Hs Hinv').
-    cbn [txn_op] in Hop. destruct (sessions s !! sid); [|discriminate].
+  - cbn [txn_op] in Hop. destruct (sessions s !! sid); [|discriminate].
     pose proof (end_preserved_destroy s idx sid s (EndP_refl s idx (proj1 Hs))) as Hx.
     destruct (delete_session_top idx sid s) as [s1|e p]; cbn in Hop; [|discriminate].
     injection Hop as <- _; exact Hx.
+Qed.
+
+Theorem end_of_session_txn_op idx op s s' r :
+  LockInv s -> txn_op idx op s = Ok (s', r) -> EndClause s idx s'.
+Proof.
+  intros Hs Hop.
+  assert (Hinv' : LockInv s').
+  { pose proof (txn_op_LockInv idx op s Hs) as Hx. rewrite Hop in Hx. exact Hx. }
+  destruct (is_kv_op op) eqn:Ek.
+  - (* KV verbs do not touch the sessions table *)
+    destruct op as [v q| | | |]; try discriminate.
+    intros sid ss Hss Hgone. exfalso.
+    assert (Hsame : sessions s' = sessions s) by (eapply txn_kv_sessions; exact Hop).
+    rewrite Hsame in Hgone. congruence.
+  - apply (EndP_clause s idx s' Hs Hinv'). eapply txn_op_EndP; eassumption.
 Qed.
 
 (* a committed transaction: the clause holds for every operation, on the state that operation ran on *)
@@ -845,4 +853,137 @@ Proof.
   - apply Hvac. reflexivity.
   - apply Hvac. unfold query_set. destruct (_ || _); reflexivity.
   - apply Hvac. unfold query_delete. destruct (queries s !! qid); reflexivity.
+Qed.
+
+(* ---------- the KV map under commands that are not KV writes (C03) ---------- *)
+(* every key is untouched (row and tombstone), or its holder's session ended in this command and the
+   key was deleted with a tombstone at the command's index or released, by the session's behaviour *)
+Definition KVEnd (s0 : st) (idx : N) (s : st) : Prop :=
+  forall k,
+    (kvs s !! k = kvs s0 !! k /\ tombs s !! k = tombs s0 !! k) \/
+    exists e0 ss, kvs s0 !! k = Some e0 /\ sessions s0 !! kv_session e0 = Some ss /\
+                  sessions s !! kv_session e0 = None /\
+                  if s_delete ss then kvs s !! k = None /\ tombs s !! k = Some idx
+                  else kvs s !! k = Some (released_row e0 idx).
+
+Lemma store_check_kvs pre idx nd cid hc ex s :
+  kvs (store_check pre idx nd cid hc ex s) = kvs s /\ tombs (store_check pre idx nd cid hc ex s) = tombs s.
+Proof.
+  unfold store_check.
+  destruct (match ex with Some x => negb (check_same x hc) | None => true end); split; reflexivity.
+Qed.
+
+Lemma ensure_check_p_noncrit_kvs pre idx nd cid hc s s' :
+  c_status hc ≠ critical -> ensure_check_p pre idx nd cid hc s = Ok s' ->
+  kvs s' = kvs s /\ tombs s' = tombs s.
+Proof.
+  intros Hnc. unfold ensure_check_p, ensure_check_with.
+  destruct (nodes s !! nd); [|discriminate].
+  unfold resolve_service.
+  assert (Hgo : forall hc1, c_status hc1 = c_status hc ->
+            (s1 ← invalidate_if_critical (fun i sid s0 => delete_session (fuel_of s0) i sid s0) idx nd cid hc1 s;
+             Ok (store_check pre idx nd cid hc1 (checks s !! (nd, cid)) s1)) = Ok s' ->
+            kvs s' = kvs s /\ tombs s' = tombs s).
+  { intros hc1 Hst. unfold invalidate_if_critical.
+    rewrite bool_decide_eq_false_2 by (rewrite Hst; exact Hnc). cbn.
+    intros Heq; injection Heq as <-. apply store_check_kvs. }
+  destruct (bool_decide (c_service hc = "")); cbn; [apply Hgo; reflexivity|].
+  destruct (services s !! _); cbn; [apply Hgo; reflexivity|discriminate].
+Qed.
+
+Lemma session_create_kvs idx sid ss s s' :
+  session_create idx sid ss s = Ok s' -> kvs s' = kvs s /\ tombs s' = tombs s.
+Proof.
+  unfold session_create. destruct (bool_decide (sid = "")); [discriminate|].
+  destruct (nodes s !! s_node ss); [|discriminate].
+  destruct (forallb _ _); [|discriminate].
+  match goal with |- rfold ?f ?l ?s1 = Ok s' -> _ =>
+    assert (Hall : forall l' a b, rfold f l' a = Ok b -> kvs b = kvs a /\ tombs b = tombs a) end.
+  { induction l' as [|cid l' IHl]; intros a b; cbn [rfold]; [intros Heq; injection Heq as <-; split; reflexivity|].
+    cbn beta.
+    match goal with |- context [checks ?s1 !! ?key] => destruct (checks s1 !! key) as [c|] end.
+    - destruct (ensure_check_p true idx (s_node ss) cid _ a) as [a'|e p] eqn:Ee; cbn; [|discriminate].
+      intros Hr. destruct (IHl a' b Hr) as [H1 H2]. rewrite H1, H2.
+      eapply ensure_check_p_noncrit_kvs; [|exact Ee]. cbn. discriminate.
+    - cbn. apply IHl. }
+  intros Hr. destruct (Hall _ _ _ Hr) as [H1 H2]. rewrite H1, H2. split; reflexivity.
+Qed.
+
+Theorem kv_frame_command idx c s :
+  LockInv s ->
+  match c with KVS _ _ | Txn _ | Reap _ => True | _ => KVEnd s idx (apply idx c s).1 end.
+Proof.
+  intros Hs.
+  assert (Hsame : forall s', kvs s' = kvs s -> tombs s' = tombs s -> KVEnd s idx s').
+  { intros s' H1 H2 k. left. rewrite H1, H2. split; reflexivity. }
+  assert (HP : EndP s idx s) by (apply EndP_refl; apply Hs).
+  assert (HL := EndP_lock_only s idx).
+  assert (HD := fun s1 sid ss => EndP_drop s idx s1 sid ss).
+  assert (Hunit : forall r : result st, post (EndP s idx) id r -> KVEnd s idx (of_unit r s).1).
+  { intros r Hr. destruct r as [s1|e p]; cbn in *; [exact (proj2 (proj1 Hr))|apply Hsame; reflexivity]. }
+  destruct c; cbn [apply]; try exact I.
+  - destruct (session_create idx sid ss s) as [s1|e p] eqn:Ec; cbn; [|apply Hsame; reflexivity].
+    destruct (session_create_kvs _ _ _ _ _ Ec) as [H1 H2]. apply Hsame; assumption.
+  - apply Hunit. apply end_preserved_destroy; exact HP.
+  - apply Hunit. apply (lift_ensure_registration (EndP s idx) idx HL HD); exact HP.
+  - destruct (negb (bool_decide (svc = ""))); [|destruct (negb (bool_decide (cid = "")))]; apply Hunit.
+    + apply at_delete_service; assumption.
+    + apply at_delete_check; assumption.
+    + apply at_delete_node; assumption.
+  - apply Hsame; unfold query_set; destruct (_ || _); reflexivity.
+  - apply Hsame; unfold query_delete; destruct (queries s !! qid); reflexivity.
+Qed.
+
+(* ... and the same for the non-KV operations of a transaction *)
+Theorem kv_frame_txn_op idx op s s' r :
+  LockInv s -> is_kv_op op = false -> txn_op idx op s = Ok (s', r) -> KVEnd s idx s'.
+Proof. intros Hs Hk Hop. exact (proj2 (proj1 (txn_op_EndP idx op s s' r Hs Hk Hop))). Qed.
+
+Fixpoint TxnKVSteps (idx : N) (ops : list txnop) (s : st) : Prop :=
+  match ops with
+  | [] => True
+  | op :: rest =>
+    match txn_op idx op s with
+    | Ok (s1, _) => (if is_kv_op op then True else KVEnd s idx s1) /\ TxnKVSteps idx rest s1
+    | Err _ _ => True
+    end
+  end.
+
+Theorem kv_frame_in_txn idx ops : forall s, LockInv s -> TxnKVSteps idx ops s.
+Proof.
+  induction ops as [|op ops IH]; intros s Hs; cbn; [exact I|].
+  pose proof (txn_op_LockInv idx op s Hs) as Hinv.
+  destruct (txn_op idx op s) as [[s1 r]|e p] eqn:Hop; [|exact I].
+  split; [|apply IH; exact Hinv].
+  destruct (is_kv_op op) eqn:Ek; [exact I|]. eapply kv_frame_txn_op; eassumption.
+Qed.
+
+(* ---------- the list verb returns exactly the map's content under the prefix (C03) ---------- *)
+Theorem read_tree idx q s :
+  exists l, txn_kv idx VGetTree q s = Ok (s, (fun kv : string * kvent => RKV kv.1 kv.2 true) <$> l) /\
+            NoDup l.*1 /\
+            forall k e, (k, e) ∈ l <-> kvs s !! k = Some e /\ has_prefix (q_key q) k = true.
+Proof.
+  unfold txn_kv.
+  set (ks := ssort (elements (dom (kvs s)))).
+  set (l0 := (fun k' => (k', default (ent_of q) (kvs s !! k'))) <$> ks).
+  exists (filter (fun kv : string * kvent => has_prefix (q_key q) kv.1 = true) l0).
+  split; [reflexivity|]. split.
+  - assert (Hnd : NoDup ks) by (unfold ks; rewrite (sv_ssort_perm _); apply NoDup_elements).
+    assert (Hfst : forall l1 : list (string * kvent),
+              (filter (fun kv : string * kvent => has_prefix (q_key q) kv.1 = true) l1).*1
+              = filter (fun k => has_prefix (q_key q) k = true) (l1.*1)).
+    { induction l1 as [|[a b] l1 IH]; [reflexivity|].
+      rewrite fmap_cons, !filter_cons. cbn [fst].
+      destruct (decide (has_prefix (q_key q) a = true)); [rewrite fmap_cons|]; rewrite IH; reflexivity. }
+    rewrite Hfst. apply NoDup_filter. unfold l0. rewrite <- list_fmap_compose.
+    assert (Hid : (fst ∘ (fun k' : string => (k', default (ent_of q) (kvs s !! k')))) <$> ks = ks).
+    { clear. induction ks as [|x l IH]; [reflexivity|]. cbn. rewrite IH. reflexivity. }
+    rewrite Hid. exact Hnd.
+  - intros k e. rewrite elem_of_list_filter. cbn. unfold l0. rewrite elem_of_list_fmap. split.
+    + intros [Hp (k' & Heq & Hin)]. injection Heq as -> ->.
+      unfold ks in Hin. apply sv_elem_of_ssort, elem_of_elements, elem_of_dom in Hin as [x Hx].
+      rewrite Hx. cbn. split; [reflexivity|exact Hp].
+    + intros [He Hp]. split; [exact Hp|]. exists k. rewrite He. cbn. split; [reflexivity|].
+      unfold ks. apply sv_elem_of_ssort, elem_of_elements, elem_of_dom. eauto.
 Qed.
